@@ -25,7 +25,7 @@ git -C "$WT" checkout -- . ; git -C "$WT" clean -fdq
 caught=no; sigs=""
 if [ $builds = yes ]; then
   git -C "$WT" apply "$SRC/patch.diff" && {
-    (cd /verif && VERIF_REPO="$WT" ./check $P --tier quick --budget $BUDGET > /tmp/seed-$NAME-check.log 2>&1); rc=$?
+    (cd /verif && VERIF_EVIDENCE_DIR=/tmp/seed-evidence VERIF_REPO="$WT" ./check $P --tier quick --budget $BUDGET > /tmp/seed-$NAME-check.log 2>&1); rc=$?
     [ $rc = 1 ] && caught=yes
     [ $rc = 2 ] && caught=harness-trouble
     sigs=$(grep "signature:" /tmp/seed-$NAME-check.log | sed 's/.*signature: //' | sort -u | tr '\n' ' ')
